@@ -640,6 +640,12 @@ def oracle(geo, blockmap, grid, err, sc, fail):
     located = {}
     for b in grid.blocklist[natm:]:
         w = where.get(b.name)
+        if w and len(w) > 1:
+            # a mapped name may coincide with the unmapped name of a (layer, column) pair that has NO block
+            # (column surface at or below that layer's bottom): the block is then the one of the pair that
+            # is expected to have a block, if that is unique
+            present = [(li, ci) for li, ci in w if li > 0 and geo.columnlist[ci].surface > lays[li].bottom]
+            if len(present) == 1: w = present
         if not w or len(w) != 1 or w[0][0] == 0:
             fail('t2grid.add_underground_blocks:unknown-block', 'block %r' % b.name, 'a block of one (layer, column) below the atmosphere layer')
             return stats
